@@ -131,22 +131,24 @@ inline Clock &clock_() { static Clock c; return c; }
 // driver can name the case that hung or crashed.
 inline char *breadcrumbBuf() { static char b[4096]; return b; }
 inline volatile unsigned long &progressCounter() { static volatile unsigned long p = 0; return p; }
+inline void progressTick() { __atomic_fetch_add(&progressCounter(), 1UL, __ATOMIC_RELAXED); }
 inline void breadcrumb(const std::string &s) {
     strncpy(breadcrumbBuf(), s.c_str(), 4095);
     breadcrumbBuf()[4095] = 0;
-    ++progressCounter();
+    __atomic_fetch_add(&progressCounter(), 1UL, __ATOMIC_RELAXED);
 }
 inline int &watchdogPeriod() { static int p = 30; return p; }
 inline void watchdogHandler(int) {
     static unsigned long last = (unsigned long)-1;
-    if (last == progressCounter()) {
+    unsigned long now = __atomic_load_n(&progressCounter(), __ATOMIC_RELAXED);
+    if (last == now) {
         const char *m = "\nHARNESS-HANG breadcrumb: ";
         (void)!write(1, m, strlen(m));
         (void)!write(1, breadcrumbBuf(), strlen(breadcrumbBuf()));
         (void)!write(1, "\n", 1);
         _exit(97);
     }
-    last = progressCounter();
+    last = now;
     alarm(watchdogPeriod());
 }
 inline void crashHandler(int sig) {
